@@ -17,7 +17,7 @@ type Replayer func(c json.RawMessage) (held bool, detail string)
 var Registry = map[string]Check{}
 var Replayers = map[string]Replayer{}
 
-func register(id string, c Check)          { Registry[id] = c }
+func register(id string, c Check)            { Registry[id] = c }
 func registerReplay(kind string, r Replayer) { Replayers[kind] = r }
 
 func thorough(r *engine.Run) bool { return r.Tier == "thorough" }
